@@ -1587,7 +1587,7 @@ int save_object (object_t * ob, const char *file, int save_zeros) {
     return 0;
 
   len = strlen (file);
-  if (file[len - 2] == '.' && file[len - 1] == 'c')
+  if (len >= 2 && file[len - 2] == '.' && file[len - 1] == 'c')
     len -= 2; /* strip .c */
 
   if (sel == (size_t)-1)
@@ -1739,7 +1739,7 @@ int restore_object (object_t * ob, const char *file, int noclear) {
     return 0;
 
   len = strlen (file);
-  if (file[len - 2] == '.' && file[len - 1] == 'c')
+  if (len >= 2 && file[len - 2] == '.' && file[len - 1] == 'c')
     len -= 2;
 
   if (sel == (size_t)-1)
